@@ -44,7 +44,9 @@ MISSING = {'obj': -1}
 class Ref:
     def __init__(self, case):
         self.case = case
-        self.pipes = {pn: dict((g, steps) for g, steps in groups) for pn, groups in case['lib']}
+        self.pipes = {pn: dict((g, steps) for g, steps in groups if g != 'context_parser')
+                      for pn, groups in case['lib']}
+        self.parsers = {pn: any(g == 'context_parser' for g, _ in groups) for pn, groups in case['lib']}
         self.stack = [case['lib'][0][0]]
         self.ctx = {}
         if case.get('dict_in') is not None:
@@ -151,12 +153,22 @@ class Ref:
         cfg = self.fmt(c['pype'])
         if not isinstance(cfg, dict) or not isinstance(cfg.get('name'), str) or cfg['name'] not in self.pipes:
             raise Unsupported('pype')
-        if cfg.get('pipeArg') or any(k in cfg for k in ('loader', 'pyDir', 'parent', 'resolveFromParent', 'skipParse')):
+        if any(k in cfg for k in ('loader', 'pyDir', 'parent', 'resolveFromParent')):
             raise Unsupported('pype option')
+        pipe_arg = cfg.get('pipeArg')
+        if pipe_arg is not None and not isinstance(pipe_arg, str):
+            raise Unsupported('pipeArg')
+        if pipe_arg and any(ch in pipe_arg for ch in '"\'\\#') or (pipe_arg and pipe_arg != ' '.join(pipe_arg.split(' '))):
+            raise Unsupported('pipeArg quoting')
+        if pipe_arg and 'skipParse' not in cfg:
+            skip_parse = False
+        else:
+            skip_parse = bool(cfg.get('skipParse', True))
+        parse_args = None if skip_parse else (pipe_arg.split(' ') if pipe_arg else [])
         args = cfg.get('args')
         if args is not None and not isinstance(args, dict):
             raise StepError('pypyr.errors.ContextError', None)
-        if args and 'useParentContext' not in cfg:
+        if (args or pipe_arg) and 'useParentContext' not in cfg:
             use_parent = False
         else:
             use_parent = bool(cfg.get('useParentContext', True))
@@ -179,10 +191,7 @@ class Ref:
                 self.errors = []
                 self.stack = [cfg['name']]
             try:
-                try:
-                    self.run_pipeline(groups, su, fa)
-                except StopPipeline:
-                    pass
+                self.run_pipeline(groups, su, fa, parse_args)
                 if not use_parent and out:
                     if isinstance(out, str):
                         pairs = {out: out}
@@ -206,12 +215,40 @@ class Ref:
         finally:
             self.ctx, self.errors, self.stack = parent_ctx, parent_errs, parent_stack
 
-    def run_pipeline(self, groups, su, fa):
+    def run_pipeline(self, groups, su, fa, parse_args=None):
+        """one pipeline run: optional context parser, then the groups; StopPipeline ends it."""
         if not groups:
             groups = ['steps']
             if not su and not fa:
                 su, fa = 'on_success', 'on_failure'
-        self.run_groups(groups, su, fa)
+        try:
+            if parse_args is not None and self.parsers.get(self.stack[-1]):
+                if parse_args[:1] == ['fail']:
+                    # the pipeline fails before any step: its failure handler runs, then the error
+                    err = StepError('ValueError', 'parser boom')
+                    err.recorded = True      # not a step failure: nothing records it in this pipeline
+                    if fa:
+                        try:
+                            self.run_handler(fa)
+                        except StopStepGroup:
+                            pass
+                        except StepError:
+                            pass
+                    raise err
+                if parse_args[:1] != ['none']:
+                    self.ctx.update({'parsed': list(parse_args), 'pflag': True})
+            self.run_groups(groups, su, fa)
+        except StopPipeline:
+            pass        # stoppipeline ends only this pipeline, wherever in it it was issued
+
+    def run_handler(self, failure):
+        steps = self.pipe.get(failure)
+        for st in steps or []:
+            try:
+                self.run_step(st)
+            except Jump as j:
+                self.run_groups(j.groups, j.success, j.failure)
+                break
 
     # ------------------------------------------------------------ step bodies
     def body(self, st, loc):
@@ -447,13 +484,7 @@ class Ref:
         except StepError:
             if failure:
                 try:
-                    steps = self.pipe.get(failure)
-                    for st in steps or []:
-                        try:
-                            self.run_step(st)
-                        except Jump as j:
-                            self.run_groups(j.groups, j.success, j.failure)
-                            break
+                    self.run_handler(failure)
                 except StopStepGroup:
                     return          # quiet end
                 except StepError:
@@ -462,11 +493,10 @@ class Ref:
 
     def run(self):
         c = self.case
+        args = c.get('args_in') or []
+        parse_args = list(args) if (args or c.get('dict_in') is None) else None
         try:
-            try:
-                self.run_pipeline(c.get('groups'), c.get('success'), c.get('failure'))
-            except StopPipeline:
-                pass
+            self.run_pipeline(c.get('groups'), c.get('success'), c.get('failure'), parse_args)
             return ['ok']
         except Stop:
             return ['ok']
@@ -498,7 +528,7 @@ def prepare(case):
                 out.append(d)
             groups.append([g, out])
         lib.append([pname, groups])
-    return {'lib': lib, 'dict_in': case.get('dict_in'),
+    return {'lib': lib, 'dict_in': case.get('dict_in'), 'args_in': case.get('args_in'),
             'groups': case.get('groups'), 'success': case.get('success'), 'failure': case.get('failure')}
 
 
